@@ -15,29 +15,29 @@ instance fieldPySum : PySum α where
 
 variable (eps : α) (genKeys : List String)
 
-theorem runLoop_length_le (n : Nat) (obs : List (StepObs α)) :
-    (runLoop eps genKeys n obs).length ≤ n ∧ (runLoop eps genKeys n obs).length ≤ obs.length := by
+theorem simLoop_length_le (n : Nat) (obs : List (StepObs α)) :
+    (simLoop eps genKeys n obs).length ≤ n ∧ (simLoop eps genKeys n obs).length ≤ obs.length := by
   induction n generalizing obs with
-  | zero => simp [runLoop]
+  | zero => simp [simLoop]
   | succ n ih =>
     cases obs with
-    | nil => simp [runLoop]
+    | nil => simp [simLoop]
     | cons o rest =>
-      simp only [runLoop]
+      simp only [simLoop]
       split
       · have := ih rest; simp only [List.length_cons]; omega
       · simp
 
-theorem runLoop_getElem (n : Nat) (obs : List (StepObs α)) (i : Nat)
-    (hi : i < (runLoop eps genKeys n obs).length) :
-    ∃ h : i < obs.length, (runLoop eps genKeys n obs)[i] = stepReport eps genKeys obs[i] := by
+theorem simLoop_getElem (n : Nat) (obs : List (StepObs α)) (i : Nat)
+    (hi : i < (simLoop eps genKeys n obs).length) :
+    ∃ h : i < obs.length, (simLoop eps genKeys n obs)[i] = stepReport eps genKeys obs[i] := by
   induction n generalizing obs i with
-  | zero => simp [runLoop] at hi
+  | zero => simp [simLoop] at hi
   | succ n ih =>
     cases obs with
-    | nil => simp [runLoop] at hi
+    | nil => simp [simLoop] at hi
     | cons o rest =>
-      simp only [runLoop] at hi ⊢
+      simp only [simLoop] at hi ⊢
       split at hi <;> rename_i hok
       · simp only [hok, if_true]
         cases i with
@@ -52,16 +52,16 @@ theorem runLoop_getElem (n : Nat) (obs : List (StepObs α)) (i : Nat)
         exact ⟨by simp, by simp⟩
 
 /-- every step before the last reported one passed all checks -/
-theorem runLoop_ok_before_last (n : Nat) (obs : List (StepObs α)) (i : Nat)
-    (hi : i + 1 < (runLoop eps genKeys n obs).length) :
-    ((runLoop eps genKeys n obs)[i]'(by omega)).ok = true := by
+theorem simLoop_ok_before_last (n : Nat) (obs : List (StepObs α)) (i : Nat)
+    (hi : i + 1 < (simLoop eps genKeys n obs).length) :
+    ((simLoop eps genKeys n obs)[i]'(by omega)).ok = true := by
   induction n generalizing obs i with
-  | zero => simp [runLoop] at hi
+  | zero => simp [simLoop] at hi
   | succ n ih =>
     cases obs with
-    | nil => simp [runLoop] at hi
+    | nil => simp [simLoop] at hi
     | cons o rest =>
-      simp only [runLoop] at hi ⊢
+      simp only [simLoop] at hi ⊢
       split at hi <;> rename_i hok
       · simp only [hok, if_true]
         cases i with
@@ -72,16 +72,16 @@ theorem runLoop_ok_before_last (n : Nat) (obs : List (StepObs α)) (i : Nat)
       · simp at hi
 
 /-- the loop stops before `n` steps only directly after a step that latched an error -/
-theorem runLoop_short (n : Nat) (obs : List (StepObs α)) (hobs : n ≤ obs.length)
-    (hlt : (runLoop eps genKeys n obs).length < n) :
-    ∃ h : (runLoop eps genKeys n obs) ≠ [], ((runLoop eps genKeys n obs).getLast h).ok = false := by
+theorem simLoop_short (n : Nat) (obs : List (StepObs α)) (hobs : n ≤ obs.length)
+    (hlt : (simLoop eps genKeys n obs).length < n) :
+    ∃ h : (simLoop eps genKeys n obs) ≠ [], ((simLoop eps genKeys n obs).getLast h).ok = false := by
   induction n generalizing obs with
   | zero => simp at hlt
   | succ n ih =>
     cases obs with
     | nil => simp at hobs
     | cons o rest =>
-      simp only [runLoop] at hlt ⊢
+      simp only [simLoop] at hlt ⊢
       split at hlt <;> rename_i hok
       · simp only [hok, if_true]
         simp only [List.length_cons, Nat.add_lt_add_iff_right] at hlt
@@ -90,13 +90,13 @@ theorem runLoop_short (n : Nat) (obs : List (StepObs α)) (hobs : n ≤ obs.leng
       · simp only [hok]
         exact ⟨by simp, by simpa using hok⟩
 
-theorem runLoop_all_ok_full (n : Nat) (obs : List (StepObs α)) (hobs : n ≤ obs.length)
-    (hall : ∀ s ∈ runLoop eps genKeys n obs, s.ok = true) :
-    (runLoop eps genKeys n obs).length = n := by
+theorem simLoop_all_ok_full (n : Nat) (obs : List (StepObs α)) (hobs : n ≤ obs.length)
+    (hall : ∀ s ∈ simLoop eps genKeys n obs, s.ok = true) :
+    (simLoop eps genKeys n obs).length = n := by
   by_contra hne
-  have hlt : (runLoop eps genKeys n obs).length < n :=
-    lt_of_le_of_ne (runLoop_length_le eps genKeys n obs).1 hne
-  obtain ⟨h, e⟩ := runLoop_short eps genKeys n obs hobs hlt
+  have hlt : (simLoop eps genKeys n obs).length < n :=
+    lt_of_le_of_ne (simLoop_length_le eps genKeys n obs).1 hne
+  obtain ⟨h, e⟩ := simLoop_short eps genKeys n obs hobs hlt
   have := hall _ (List.getLast_mem h)
   rw [e] at this; exact absurd this (by simp)
 
